@@ -26,6 +26,11 @@ desc = {
  'all200_seed0.log': 'all 200, seed 0, harness after the round-5 extensions',
  'round6_first_run_seed0.log': 'round 6 (K, L) FIRST RUN against the harness that had never seen them: 20 of 40 (2 of them without a failing input)',
  'all240_seed0.log': 'all 240, seed 0, harness after the round-6 extensions',
+ 'all240_seed1_final.log': 'all 240, seed 1, harness as of the start of round 7',
+ 'all240_seed2_final.log': 'all 240, seed 2, harness as of the start of round 7',
+ 'round7_first_run_seed0.log': 'round 7 (M, N) FIRST RUN against the harness that had never seen them: 26 of 40',
+ 'all280_seed0.log': 'all 280, seed 0, harness after the round-7 extensions',
+ 'all280_seed1.log': 'all 280, seed 1 (the seed `vp check` uses), same harness',
  'all240_seed1.log': 'all 240, seed 1 (the seed `vp check` uses), same harness',
  'all200_seed1.log': 'all 200, seed 1 (the seed `vp check` uses), same harness',
  'all160_seed1.log': 'all 160, seed 1 (the seed `vp check` uses), same harness',
